@@ -26,6 +26,23 @@ for r in rows:
     sec.append('| %s | %s | %s | %s | %s |' % r)
 sec.append('')
 sec.append(extra)
+# behaviour-preserving changes
+ben = []
+for d in sorted(glob.glob('/verif/benign/*/meta.json')):
+    m = json.load(open(d))
+    notes = open(os.path.dirname(d) + '/NOTES.md').read().strip().split('\n')
+    title = re.sub(r'^#+\s*', '', notes[0])[:150] if notes else ''
+    ben.append((m['id'], ' '.join(m['files'])[:90], title, ' '.join(c['check'] for c in m['checks_run']), 'yes' if m['all_silent'] else 'NO'))
+if ben:
+    sec += ['', '### Behaviour-preserving changes (the checks must stay silent)', '',
+            'Written the same way (a fresh sub-agent per property, property text and scratch worktree only) but with the',
+            'opposite brief: a non-trivial refactoring or optimisation of the code the property is about that keeps',
+            'the behaviour. Kept under `/verif/benign/`; `bin/benign-eval` applies each to a scratch worktree and runs the',
+            'quick tier of every check that touches the changed files. A check that speaks here would be a false alarm.', '',
+            '| change | files | what it is | checks run | all silent |', '|---|---|---|---|---|']
+    for r in ben:
+        sec.append('| %s | %s | %s | %s | %s |' % r)
+    sec.append('')
 s = open('/verif/DESIGN.md').read()
 i = s.find('## 8. Seeded property-breaking changes')
 if i >= 0:
